@@ -137,4 +137,4 @@ def stage(ctx):
 
 def run(ctx):
     return run_solver_property(ctx, "C10", codes=("C10",), focus_mix=("mixed", "single", "updates"), n_quick=30, extra_stage=stage,
-                               extra_theorem_files=("Properties_C10_unique.v", "Properties_C13.v", "Properties_C10_sparse.v", "Properties_C10_backends.v"))
+                               extra_theorem_files=("Properties_C10_unique.v", "Properties_C13.v", "Properties_C10_sparse.v", "Properties_C10_backends.v", "Properties_C10_loop.v"))
